@@ -13,6 +13,7 @@ import (
 	"path/filepath"
 	"regexp"
 	"strings"
+	"time"
 
 	"verif/harness/gw"
 	"verif/harness/lib"
@@ -162,6 +163,150 @@ func c05VerShape(a lib.Args, res *lib.Result) error {
 			res.Fail(lib.Failure{Kind: "correspondence", Signature: "conc:versioned:step-shape", What: "the filesystem steps of a versioned overwrite, projected to Model.ConcVer's vocabulary, differ from the model's program",
 				Input: map[string]interface{}{"mode": "versioned-shape", "strategy": strat, "calls": tail}, Impl: got, Model: want[0]})
 		}
+	}
+	return nil
+}
+
+// c05VerMarkerRace: a read that starts AFTER a DELETE was acknowledged must not return the deleted data, also
+// when a PUT replaces the delete marker while the read is in flight. The reading gateway process runs under
+// strace with a delay injected at the exit of its openat of the object (the file is open, the delete-marker
+// test has not run yet); the PUT goes through a second process on the same storage. Admissible answers of
+// the read: NoSuchKey (the marker it opened) or the complete new object — never the deleted one.
+func c05VerMarkerRace(a lib.Args, res *lib.Result) error {
+	if a.ReplayInput() != nil {
+		if st, _ := a.ReplayInput()["mode"].(string); st != "versioned-marker-race" {
+			return nil
+		}
+	}
+	for _, strat := range []string{"otmp", "mktemp"} {
+		cfg, err := mustStorage(a, "c05vm-"+strat, true, false, func(c *gw.Config) { c.NoOTmp = strat == "mktemp" })
+		if err != nil {
+			return err
+		}
+		plain, err := gw.Start(cfg)
+		if err != nil {
+			return err
+		}
+		slowCfg := cfg
+		slowCfg.Strace = []string{"-f", "-qq", "-o", "/dev/null", "-e", "trace=openat", "-P", "dmr/obj", "-P", filepath.Join(cfg.Root, "dmr", "obj"), "-e", "inject=openat:delay_exit=300000"}
+		slow, err := gw.Start(slowCfg)
+		if err != nil {
+			plain.Kill()
+			return err
+		}
+		cr := rootCreds(cfg)
+		do := func(g *gw.Gateway, q gw.Req) gw.Resp {
+			q.Auth, q.Creds, q.Timeout = "header", cr, 20*time.Second
+			return gw.Do(g.Addr(), q)
+		}
+		do(plain, gw.Req{Method: "PUT", Path: "/dmr"})
+		do(plain, gw.Req{Method: "PUT", Path: "/dmr", Query: "versioning=", Body: []byte("<VersioningConfiguration><Status>Enabled</Status></VersioningConfiguration>")})
+		rounds := 3
+		if a.Thorough() {
+			rounds = 12
+		}
+		for i := 0; i < rounds; i++ {
+			oldBody, newBody := []byte(fmt.Sprintf("deleted-content-%d-of-the-key", i)), []byte(fmt.Sprintf("new-content-%d", i))
+			do(plain, gw.Req{Method: "PUT", Path: "/dmr/obj", Body: oldBody})
+			if r := do(plain, gw.Req{Method: "DELETE", Path: "/dmr/obj"}); r.Status != 204 {
+				continue
+			}
+			var get gw.Resp
+			done := make(chan struct{})
+			go func() {
+				get = do(slow, gw.Req{Method: []string{"GET", "HEAD"}[i%2], Path: "/dmr/obj"})
+				close(done)
+			}()
+			time.Sleep(100 * time.Millisecond)
+			put := do(plain, gw.Req{Method: "PUT", Path: "/dmr/obj", Body: newBody})
+			<-done
+			cls := "nokey"
+			switch {
+			case get.Status == 404:
+			case get.Status == 200 && (i%2 == 1 && get.Headers.Get("Content-Length") == fmt.Sprint(len(newBody)) || i%2 == 0 && string(get.Body) == string(newBody)):
+				cls = "new-object"
+			case get.Status == 200:
+				cls = "deleted-data"
+				res.Fail(lib.Failure{Kind: "property", Signature: "conc:versioned:read-after-delete:deleted-data:" + c05StratName(strat),
+					What:  fmt.Sprintf("a %s that started after the DELETE was acknowledged answered 200 with the deleted object (Content-Length %s) while a PUT (%d) replaced the delete marker", []string{"GET", "HEAD"}[i%2], get.Headers.Get("Content-Length"), put.Status),
+					Input: map[string]interface{}{"mode": "versioned-marker-race", "strategy": strat, "read": []string{"GET", "HEAD"}[i%2]}, Impl: fmt.Sprintf("%d len=%s", get.Status, get.Headers.Get("Content-Length"))})
+			default:
+				cls = fmt.Sprintf("status-%d", get.Status)
+			}
+			res.Count(fmt.Sprintf("vmr|%s|%d", strat, i), true, "versioned-marker-race:"+strat+":"+cls)
+		}
+		plain.Kill()
+		slow.Kill()
+	}
+	return nil
+}
+
+// c05AttrListRace: GET / HEAD of an object while another request adds an attribute to it (PutObjectTagging
+// stores the tags by name). The attribute list is read in two steps (size, then content); the reading process
+// runs under strace with a delay at the exit of every size probe (1st, 3rd, … flistxattr), the tagging goes
+// through a second process. The read must still answer the object's metadata (it is all there, before and
+// after): a listing that fails because the list grew must be repeated, not taken for "no attributes".
+func c05AttrListRace(a lib.Args, res *lib.Result) error {
+	if a.ReplayInput() != nil {
+		if st, _ := a.ReplayInput()["mode"].(string); st != "attr-list-race" {
+			return nil
+		}
+	}
+	cfg, err := mustStorage(a, "c05al", false, false, nil)
+	if err != nil {
+		return err
+	}
+	plain, err := gw.Start(cfg)
+	if err != nil {
+		return err
+	}
+	defer plain.Kill()
+	slowCfg := cfg
+	slowCfg.Strace = []string{"-f", "-qq", "-o", "/dev/null", "-e", "trace=flistxattr", "-e", "inject=flistxattr:delay_exit=250000:when=1+2"}
+	slow, err := gw.Start(slowCfg)
+	if err != nil {
+		return err
+	}
+	defer slow.Kill()
+	cr := rootCreds(cfg)
+	do := func(g *gw.Gateway, q gw.Req) gw.Resp {
+		q.Auth, q.Creds, q.Timeout = "header", cr, 20*time.Second
+		return gw.Do(g.Addr(), q)
+	}
+	do(plain, gw.Req{Method: "PUT", Path: "/alr"})
+	rounds := 2
+	if a.Thorough() {
+		rounds = 8
+	}
+	for i := 0; i < rounds; i++ {
+		key := fmt.Sprintf("/alr/obj-%d", i)
+		put := gw.Req{Method: "PUT", Path: key, Body: []byte("attribute list race")}
+		put.Set("x-amz-meta-m0", "kept")
+		put.Set("Content-Type", "text/x-kept")
+		do(plain, put)
+		method := []string{"HEAD", "GET"}[i%2]
+		var rd gw.Resp
+		done := make(chan struct{})
+		go func() {
+			rd = do(slow, gw.Req{Method: method, Path: key})
+			close(done)
+		}()
+		time.Sleep(100 * time.Millisecond)
+		tg := do(plain, gw.Req{Method: "PUT", Path: key, Query: "tagging", Body: []byte(`<Tagging><TagSet><Tag><Key>added</Key><Value>meanwhile</Value></Tag></TagSet></Tagging>`)})
+		<-done
+		cls := "metadata-present"
+		if rd.Status != 200 {
+			cls = fmt.Sprintf("status-%d", rd.Status)
+		} else if rd.Headers.Get("x-amz-meta-m0") != "kept" || rd.Headers.Get("Content-Type") != "text/x-kept" {
+			cls = "metadata-missing"
+		}
+		if cls != "metadata-present" {
+			who := strings.ToLower(method)
+			res.Fail(lib.Failure{Kind: "property", Signature: "conc:" + who + "-vs-attribute-added:" + cls,
+				What:  fmt.Sprintf("%s of an object while PutObjectTagging (%d) added an attribute to it answered %d without the object's metadata / content type (x-amz-meta-m0=%q, Content-Type=%q)", method, tg.Status, rd.Status, rd.Headers.Get("x-amz-meta-m0"), rd.Headers.Get("Content-Type")),
+				Input: map[string]interface{}{"mode": "attr-list-race", "read": method}, Impl: fmt.Sprintf("%d m0=%q ctype=%q", rd.Status, rd.Headers.Get("x-amz-meta-m0"), rd.Headers.Get("Content-Type"))})
+		}
+		res.Count(fmt.Sprintf("alr|%d", i), true, "attr-list-race:"+method+":"+cls)
 	}
 	return nil
 }
